@@ -3,11 +3,12 @@ import Girc.Model.Sasl
 import Girc.Model.Rate
 import Girc.Model.CmdHandler
 import Girc.Spec.NameSpec
+import Girc.Proofs.PureAux
 /-
   Proof obligations for the small pure codecs (C09 chunking/base64, C14 codec, C16 arithmetic, C18).
 -/
 namespace Girc.Proofs.Pure
-open Girc Girc.Model
+open Girc Girc.Model Girc.Proofs.PureAux
 
 /-! ## C14 codec -/
 
@@ -17,29 +18,94 @@ theorem ctcp_decode_encode (c tgt cmd text : Bytes) (src : Option Source) (tags 
     (hc : c = PRIVMSG ∨ c = NOTICE) (hne : cmd ≠ []) (hcmd : upperOrDigit cmd = true) :
     decodeCTCP { tags := tags, source := src, command := c, params := [tgt, encodeCTCPRaw cmd text] } =
       some ⟨src, cmd, text, c == NOTICE⟩ := by
-  sorry
+  rw [decodeCTCP_two _ tgt (encodeCTCPRaw cmd text) rfl]
+  have hsp := sp_not_mem cmd hcmd
+  have hall : cmd.all ctcpTagByte = true := by rw [ctcpTagByte_funeq]; exact hcmd
+  have henc : encodeCTCPRaw cmd text = ctcpDelim :: (cmd ++ (if text.length > 0 then SP :: text else [])) ++ [ctcpDelim] := by
+    unfold encodeCTCPRaw
+    have : cmd.isEmpty = false := by cases cmd <;> simp_all
+    simp [this]
+  have hlen : ¬ (encodeCTCPRaw cmd text).length < 3 := by
+    rw [henc]
+    cases cmd with
+    | nil => exact absurd rfl hne
+    | cons a as => simp; omega
+  rw [if_neg hlen]
+  have hcc : ((c != PRIVMSG) && (c != NOTICE)) = false := by
+    rcases hc with rfl | rfl <;> decide
+  simp only [hcc]
+  have hd : ((encodeCTCPRaw cmd text).head? != some ctcpDelim || (encodeCTCPRaw cmd text).getLast? != some ctcpDelim) = false := by
+    rw [henc, mid_last]; simp
+  simp only [hd]
+  have ht : ((encodeCTCPRaw cmd text).drop 1).dropLast = cmd ++ (if text.length > 0 then SP :: text else []) := by
+    rw [henc]; exact mid_text _
+  simp only [ht]
+  cases text with
+  | nil =>
+    simp only [List.length_nil, Nat.lt_irrefl, if_false, List.append_nil]
+    rw [indexOf_none SP cmd hsp]
+    simp [hall]
+  | cons t ts =>
+    simp only [List.length_cons, Nat.zero_lt_succ, if_true]
+    rw [indexOf_append SP cmd (t :: ts) hsp]
+    simp [hall]
 
 /-- Anything not delimited by 0x01 on both ends is not CTCP. -/
 theorem ctcp_not_delimited (e : Event) (tgt p : Bytes) (hp : e.params = [tgt, p])
     (h : p.head? ≠ some ctcpDelim ∨ p.getLast? ≠ some ctcpDelim) : decodeCTCP e = none := by
-  sorry
+  rw [decodeCTCP_two e tgt p hp]
+  split
+  · rfl
+  split
+  · rfl
+  rw [if_pos]
+  rcases h with h | h <;> simp [h]
 
 /-- A tag (the bytes between the first delimiter and the first SPACE / the closing delimiter) containing
     a byte outside A–Z/0–9 is not CTCP. -/
 theorem ctcp_bad_tag (e : Event) (tgt tag rest : Bytes) (hsp : SP ∉ tag)
     (hp : e.params = [tgt, ctcpDelim :: tag ++ rest ++ [ctcpDelim]]) (hrest : rest = [] ∨ rest.head? = some SP)
     (hbad : ∃ b ∈ tag, Spec.isUpperOrDigit b = false) : decodeCTCP e = none := by
-  sorry
+  rw [decodeCTCP_two e tgt _ hp]
+  split
+  · rfl
+  split
+  · rfl
+  split
+  · rfl
+  have hall := all_false_of_bad tag hbad
+  have ht : ((ctcpDelim :: tag ++ rest ++ [ctcpDelim]).drop 1).dropLast = tag ++ rest := by
+    have := mid_text (tag ++ rest)
+    simp
+  simp only [ht]
+  rcases hrest with rfl | hr
+  · simp only [List.append_nil]
+    rw [indexOf_none SP tag hsp]
+    simp [hall]
+  · match rest, hr with
+    | c :: r, hr =>
+      simp at hr
+      subst hr
+      rw [indexOf_append SP tag r hsp]
+      simp [hall]
 
 /-- Other commands and other parameter counts are never CTCP. -/
 theorem ctcp_wrong_shape (e : Event) (h : (e.command ≠ PRIVMSG ∧ e.command ≠ NOTICE) ∨ e.params.length ≠ 2) :
     decodeCTCP e = none := by
-  sorry
+  match hp : e.params with
+  | [tgt, p] =>
+    rw [decodeCTCP_two e tgt p hp]
+    rcases h with ⟨h1, h2⟩ | h
+    · simp [h1, h2]
+    · simp [hp] at h
+  | [] => unfold decodeCTCP; rw [hp]
+  | [_] => unfold decodeCTCP; rw [hp]
+  | _ :: _ :: _ :: _ => unfold decodeCTCP; rw [hp]
 
 /-! ## C09 chunking and base64 -/
 
 theorem b64_roundtrip (x : Bytes) : b64Decode (b64Encode x) = some x := by
-  sorry
+  exact b64_roundtrip_aux x
 
 /-- The payload chunks: everything, minus the lone "+" terminator when the length is a multiple of 400. -/
 def payloads (auth : Bytes) : List Bytes :=
@@ -51,19 +117,38 @@ theorem chunks_exact (auth : Bytes) (hne : auth ≠ []) :
     (∀ c ∈ (payloads auth).dropLast, c.length = 400) ∧
     (auth.length % 400 = 0 → (saslChunks auth).getLast? = some PLUS ∧ ((payloads auth).getLast?.map List.length) = some 400) ∧
     (auth.length % 400 ≠ 0 → ((saslChunks auth).getLast?.map List.length) = some (auth.length % 400)) := by
-  sorry
+  rcases chunkShape auth hne with ⟨Q, last, hL, hQ, hcase⟩
+  unfold payloads
+  rw [hL]
+  rcases hcase with ⟨h0, hl, hf, hQne⟩ | ⟨h0, hl, hf⟩
+  · rw [if_pos h0, List.dropLast_concat]
+    refine ⟨hf, ?_, ?_, ?_, fun h => absurd h0 h⟩
+    · intro c hc; rw [hQ c hc]; omega
+    · intro c hc; exact hQ c (mem_of_mem_dropLast hc)
+    · intro _
+      refine ⟨by simp [hl], ?_⟩
+      have hm : Q.getLast hQne ∈ Q := List.getLast_mem hQne
+      rw [List.getLast?_eq_some_getLast hQne]
+      simp [hQ _ hm]
+  · rw [if_neg h0, List.dropLast_concat]
+    refine ⟨hf, ?_, hQ, fun h => absurd h h0, ?_⟩
+    · intro c hc
+      rcases List.mem_append.mp hc with hc | hc
+      · rw [hQ c hc]; omega
+      · simp at hc; rw [hc, hl]; omega
+    · intro _; simp [hl]
 
 /-! ## C16 arithmetic -/
 
 theorem cost_exact (n : Nat) : cost n = second + (n : Int) * 10000000 := by
-  sorry
+  exact cost_eq n
 
 /-- The delay is either nothing or exactly the event's cost, and it is the cost exactly when the
     outstanding allowance is exceeded. -/
 theorem delay_exact (wd since : Int) (n : Nat) :
     ((rate wd since n).2 = 0 ∨ (rate wd since n).2 = cost n) ∧
     ((rate wd since n).2 = cost n ↔ (rate wd since n).1 > 8 * second) ∧ 0 ≤ (rate wd since n).1 := by
-  sorry
+  exact rate_facts wd since n
 
 /-- One call of a serial sender: observed idle time `since ≥ 0`, event size, and scheduling slack
     `extra ≥ 0` (the event is written at least `delay` after the call). -/
@@ -81,18 +166,63 @@ def runTrace : Int → List Step → Int × Int × Int
     let (wdf, el, tot) := runTrace wd' rest
     (wdf, s.since + d + s.extra + el, cost s.chars + tot)
 
+theorem runTrace_cons (wd : Int) (s : Step) (rest : List Step) :
+    runTrace wd (s :: rest) =
+      ((runTrace (rate wd s.since s.chars).1 rest).1,
+       s.since + (rate wd s.since s.chars).2 + s.extra + (runTrace (rate wd s.since s.chars).1 rest).2.1,
+       cost s.chars + (runTrace (rate wd s.since s.chars).1 rest).2.2) := rfl
+
+theorem leaky_inv (tr : List Step) : ∀ (wd : Int), 0 ≤ wd →
+    (∀ s ∈ tr, 0 ≤ s.since ∧ 0 ≤ s.extra) →
+    (runTrace wd tr).2.2 + min wd (8 * second) ≤ min (runTrace wd tr).1 (8 * second) + (runTrace wd tr).2.1 := by
+  induction tr with
+  | nil => intro wd _ _; simp [runTrace]
+  | cons s rest ih =>
+    intro wd hwd h
+    have hs := h s (by simp)
+    have hrest : ∀ s ∈ rest, 0 ≤ s.since ∧ 0 ≤ s.extra := fun t ht => h t (by simp [ht])
+    have hd := rate_facts wd s.since s.chars
+    have ih' := ih (rate wd s.since s.chars).1 hd.2.2 hrest
+    rw [runTrace_cons]
+    simp only
+    have h1 := rate_fst wd s.since s.chars
+    have h2 := rate_snd wd s.since s.chars
+    have hc := cost_ge s.chars
+    generalize (runTrace (rate wd s.since s.chars).1 rest) = r at *
+    generalize (rate wd s.since s.chars).1 = w' at *
+    generalize (rate wd s.since s.chars).2 = d at *
+    generalize cost s.chars = c at *
+    unfold second at *
+    omega
+
 /-- Leaky bucket: over ANY window of a serial trace, the total cost written is at most the 8 s
     allowance plus the wall-clock time the window took. -/
 theorem leaky_bucket (wd : Int) (tr : List Step) (hwd : 0 ≤ wd)
     (h : ∀ s ∈ tr, 0 ≤ s.since ∧ 0 ≤ s.extra) :
     (runTrace wd tr).2.2 ≤ 8 * second + (runTrace wd tr).2.1 := by
-  sorry
+  have := leaky_inv tr wd hwd h
+  unfold second at *
+  omega
+
+theorem tot_ge (tr : List Step) : ∀ wd : Int, (tr.length : Int) * second ≤ (runTrace wd tr).2.2 := by
+  induction tr with
+  | nil => intro wd; simp [runTrace]
+  | cons s rest ih =>
+    intro wd
+    rw [runTrace_cons]
+    have := ih (rate wd s.since s.chars).1
+    have hc := cost_ge s.chars
+    simp only [List.length_cons]
+    generalize (runTrace (rate wd s.since s.chars).1 rest).2.2 = t at *
+    unfold second at *
+    push_cast
+    omega
 
 /-- Hence at most `8 + T` events are written in any window of `T` seconds. -/
 theorem message_rate (wd : Int) (tr : List Step) (hwd : 0 ≤ wd)
     (h : ∀ s ∈ tr, 0 ≤ s.since ∧ 0 ≤ s.extra) :
     (tr.length : Int) * second ≤ 8 * second + (runTrace wd tr).2.1 := by
-  sorry
+  exact Int.le_trans (tot_ge tr wd) (leaky_bucket wd tr hwd h)
 
 /-! ## C18 -/
 
@@ -101,7 +231,55 @@ theorem matchCmd_iff (pfx text name rest : Bytes) :
     matchCmd pfx text = some (name, rest) ↔
       validCmdName name = true ∧ LF ∉ rest ∧
       (text = pfx ++ name ∧ rest = [] ∨ text = pfx ++ name ++ SP :: rest) := by
-  sorry
+  constructor
+  · intro h
+    by_cases hp : pfx.isPrefixOf text = true
+    · rw [List.isPrefixOf_iff_prefix] at hp
+      rcases hp with ⟨t, rfl⟩
+      rw [matchCmd_drop] at h
+      have hall := all_takeWhile cmdNameByte t
+      have happ := List.takeWhile_append_dropWhile (p := cmdNameByte) (l := t)
+      split at h
+      · cases h
+      · rename_i hlen
+        simp only [Bool.or_eq_true, decide_eq_true_eq, not_or] at hlen
+        split at h
+        · rename_i hd
+          simp only [Option.some.injEq, Prod.mk.injEq] at h
+          rcases h with ⟨hn, hr⟩
+          subst hr
+          rw [hd, List.append_nil] at happ
+          rw [hn] at happ hall hlen
+          refine ⟨(validCmdName_iff _).2 ⟨by omega, by omega, hall⟩, by simp, Or.inl ⟨by rw [happ], rfl⟩⟩
+        · rename_i c r hd
+          split at h
+          · rename_i hc
+            simp only [Option.some.injEq, Prod.mk.injEq] at h
+            rcases h with ⟨hn, hr⟩
+            subst hr
+            simp only [Bool.and_eq_true, decide_eq_true_eq, Bool.not_eq_true', List.contains_eq_mem, decide_eq_false_iff_not] at hc
+            rw [hd, hc.1] at happ
+            rw [hn] at happ hall hlen
+            refine ⟨(validCmdName_iff _).2 ⟨by omega, by omega, hall⟩, hc.2, Or.inr ?_⟩
+            rw [List.append_assoc, happ]
+          · cases h
+    · rw [matchCmd_not_prefix pfx text ((Bool.not_eq_true _).mp hp)] at h
+      cases h
+  · rintro ⟨hv, hlf, h⟩
+    rw [validCmdName_iff] at hv
+    rcases h with ⟨rfl, rfl⟩ | rfl
+    · rw [matchCmd_drop]
+      have := takeWhile_all cmdNameByte name hv.2.2
+      rw [this.1, this.2]
+      have hcond : (decide (name.length < 1) || decide (name.length > 20)) = false := by
+        simp only [Bool.or_eq_false_iff, decide_eq_false_iff_not]; omega
+      simp only [hcond]; simp
+    · rw [List.append_assoc, matchCmd_drop]
+      have := takeWhile_app cmdNameByte name SP rest hv.2.2 sp_not_name
+      rw [this.1, this.2]
+      have hcond : (decide (name.length < 1) || decide (name.length > 20)) = false := by
+        simp only [Bool.or_eq_false_iff, decide_eq_false_iff_not]; omega
+      simp only [hcond]; simp [hlf]
 
 theorem execute_invoke_iff (pfx : Bytes) (tbl : CmdTable) (e : Event) (id : Nat) (args : List Bytes) (raw : Bytes) :
     cmdExecute pfx tbl e = .invoke id args raw ↔
@@ -109,7 +287,37 @@ theorem execute_invoke_iff (pfx : Bytes) (tbl : CmdTable) (e : Event) (id : Nat)
       ∃ name c, matchCmd pfx (e.params.getLastD []) = some (name, raw) ∧ name ≠ HELP ∧
         AMap.get? tbl name = some c ∧ c.id = id ∧
         args = (if raw.isEmpty then [] else splitOnByte SP raw) ∧ c.minArgs ≤ (args.length : Int) := by
-  sorry
+  constructor
+  · intro h
+    by_cases hg : e.source.isSome ∧ e.command = PRIVMSG
+    · refine ⟨hg.1, hg.2, ?_⟩
+      cases hm : matchCmd pfx (e.params.getLastD []) with
+      | none => rw [cmdExecute_nomatch pfx tbl e hm] at h; cases h
+      | some nr =>
+        rcases nr with ⟨name, raw'⟩
+        by_cases hn : name = HELP
+        · subst hn
+          rcases cmdExecute_help pfx tbl e raw' hm with ⟨k, hk | hk⟩ <;> rw [hk] at h <;> cases h
+        · rw [cmdExecute_match pfx tbl e name raw' hg.1 hg.2 hm hn] at h
+          cases hget : AMap.get? tbl name with
+          | none => rw [hget] at h; cases h
+          | some c =>
+            rw [hget] at h
+            simp only at h
+            by_cases hlt : (((if raw'.isEmpty then [] else splitOnByte SP raw').length : Nat) : Int) < c.minArgs
+            · rw [if_pos hlt] at h; cases h
+            · rw [if_neg hlt] at h
+              simp only [CmdAction.invoke.injEq] at h
+              rcases h with ⟨h1, h2, h3⟩
+              subst h3
+              refine ⟨name, c, rfl, hn, hget, h1, h2.symm, ?_⟩
+              rw [← h2]
+              omega
+    · rw [cmdExecute_guard pfx tbl e hg] at h; cases h
+  · rintro ⟨hs, hc, name, c, hm, hn, hget, hid, hargs, hmin⟩
+    rw [cmdExecute_match pfx tbl e name raw hs hc hm hn, hget]
+    simp only
+    rw [← hargs, if_neg (by omega), hid]
 
 theorem execute_usage_iff (pfx : Bytes) (tbl : CmdTable) (e : Event) (name : Bytes) :
     cmdExecute pfx tbl e = .usage name ↔
@@ -117,14 +325,47 @@ theorem execute_usage_iff (pfx : Bytes) (tbl : CmdTable) (e : Event) (name : Byt
       ∃ raw c, matchCmd pfx (e.params.getLastD []) = some (name, raw) ∧ name ≠ HELP ∧
         AMap.get? tbl name = some c ∧
         (((if raw.isEmpty then [] else splitOnByte SP raw).length : Int) < c.minArgs) := by
-  sorry
+  constructor
+  · intro h
+    by_cases hg : e.source.isSome ∧ e.command = PRIVMSG
+    · refine ⟨hg.1, hg.2, ?_⟩
+      cases hm : matchCmd pfx (e.params.getLastD []) with
+      | none => rw [cmdExecute_nomatch pfx tbl e hm] at h; cases h
+      | some nr =>
+        rcases nr with ⟨name', raw'⟩
+        by_cases hn : name' = HELP
+        · subst hn
+          rcases cmdExecute_help pfx tbl e raw' hm with ⟨k, hk | hk⟩ <;> rw [hk] at h <;> cases h
+        · rw [cmdExecute_match pfx tbl e name' raw' hg.1 hg.2 hm hn] at h
+          cases hget : AMap.get? tbl name' with
+          | none => rw [hget] at h; cases h
+          | some c =>
+            rw [hget] at h
+            simp only at h
+            by_cases hlt : (((if raw'.isEmpty then [] else splitOnByte SP raw').length : Nat) : Int) < c.minArgs
+            · rw [if_pos hlt] at h
+              simp only [CmdAction.usage.injEq] at h
+              subst h
+              exact ⟨raw', c, rfl, hn, hget, hlt⟩
+            · rw [if_neg hlt] at h; cases h
+    · rw [cmdExecute_guard pfx tbl e hg] at h; cases h
+  · rintro ⟨hs, hc, raw, c, hm, hn, hget, hlt⟩
+    rw [cmdExecute_match pfx tbl e name raw hs hc hm hn, hget]
+    simp only
+    rw [if_pos hlt]
 
 /-- No other message invokes anything. -/
 theorem execute_nothing_else (pfx : Bytes) (tbl : CmdTable) (e : Event)
     (h : e.source = none ∨ e.command ≠ PRIVMSG ∨ matchCmd pfx (e.params.getLastD []) = none ∨
          (∃ name raw, matchCmd pfx (e.params.getLastD []) = some (name, raw) ∧ name ≠ HELP ∧ AMap.get? tbl name = none)) :
     cmdExecute pfx tbl e = .none := by
-  sorry
+  rcases h with h | h | h | ⟨name, raw, hm, hn, hget⟩
+  · exact cmdExecute_guard pfx tbl e (by simp [h])
+  · exact cmdExecute_guard pfx tbl e (by simp [h])
+  · exact cmdExecute_nomatch pfx tbl e h
+  · by_cases hg : e.source.isSome ∧ e.command = PRIVMSG
+    · rw [cmdExecute_match pfx tbl e name raw hg.1 hg.2 hm hn, hget]
+    · exact cmdExecute_guard pfx tbl e hg
 
 /-- Registration is rejected exactly for invalid or duplicate names/aliases. -/
 theorem add_result (tbl : CmdTable) (cmd : Command) :
@@ -133,6 +374,74 @@ theorem add_result (tbl : CmdTable) (cmd : Command) :
     ((cmdAdd tbl cmd).2 = .invalidName ↔ (validCmdName name = false ∨ ∃ a ∈ aliases, validCmdName a = false)) ∧
     ((cmdAdd tbl cmd).2 = .duplicateName → AMap.contains tbl name = true ∧ (cmdAdd tbl cmd).1 = tbl) ∧
     ((cmdAdd tbl cmd).2 = .ok → ∀ n ∈ name :: aliases, ∃ c, AMap.get? (cmdAdd tbl cmd).1 n = some c ∧ c.id = cmd.id) := by
-  sorry
+  intro name aliases
+  generalize hcmd' : (⟨toLowerAscii cmd.name, cmd.aliases.map toLowerAscii,
+      if cmd.minArgs < 0 then 0 else cmd.minArgs, cmd.hasHelp, cmd.id⟩ : Command) = cmd'
+  have hid : cmd'.id = cmd.id := by rw [← hcmd']
+  have hadd : cmdAdd tbl cmd =
+      if !validCmdName name then (tbl, .invalidName)
+      else if !aliases.all validCmdName then (tbl, .invalidName)
+      else if AMap.contains tbl name then (tbl, .duplicateName)
+      else cmdAddAliases (AMap.set tbl name cmd') cmd' aliases := by
+    rw [← hcmd']; rfl
+  by_cases h1 : validCmdName name = true
+  · by_cases h2 : aliases.all validCmdName = true
+    · have h2' : ¬ (validCmdName name = false ∨ ∃ a ∈ aliases, validCmdName a = false) := by
+        rintro (hf | ⟨a, ha, hf⟩)
+        · rw [h1] at hf; cases hf
+        · rw [List.all_eq_true] at h2
+          rw [h2 a ha] at hf; cases hf
+      by_cases h3 : AMap.contains tbl name = true
+      · have hres : cmdAdd tbl cmd = (tbl, .duplicateName) := by
+          rw [hadd]; simp only [h1, h2, h3, Bool.not_true, Bool.false_eq_true, if_false, if_true]
+        rw [hres]
+        refine ⟨⟨?_, ?_⟩, ?_, ?_⟩
+        · intro h; cases h
+        · intro h; exact absurd h h2'
+        · intro _; exact ⟨h3, rfl⟩
+        · intro h; cases h
+      · have hres : cmdAdd tbl cmd = cmdAddAliases (AMap.set tbl name cmd') cmd' aliases := by
+          rw [hadd]; simp only [h1, h2, h3, Bool.not_true, Bool.false_eq_true, if_false]
+        rw [hres]
+        rcases addAliases_res cmd' aliases (AMap.set tbl name cmd') with hr | hr
+        · have hok := addAliases_ok cmd' aliases (AMap.set tbl name cmd') hr
+          refine ⟨⟨?_, ?_⟩, ?_, ?_⟩
+          · intro h; rw [hr] at h; cases h
+          · intro h; exact absurd h h2'
+          · intro h; rw [hr] at h; cases h
+          · intro _ n hn
+            refine ⟨cmd', ?_, hid⟩
+            rcases List.mem_cons.mp hn with rfl | hn
+            · apply hok.1
+              rw [TagsAux.get?_set]; simp
+            · exact hok.2 n hn
+        · refine ⟨⟨?_, ?_⟩, ?_, ?_⟩
+          · intro h; rw [hr] at h; cases h
+          · intro h; exact absurd h h2'
+          · intro h; rw [hr] at h; cases h
+          · intro h; rw [hr] at h; cases h
+    · have h2f : aliases.all validCmdName = false := (Bool.not_eq_true _).mp h2
+      have h2' : ∃ a ∈ aliases, validCmdName a = false := by
+        have := h2f
+        rw [List.all_eq_false] at this
+        rcases this with ⟨a, ha, hf⟩
+        exact ⟨a, ha, (Bool.not_eq_true _).mp hf⟩
+      have hres : cmdAdd tbl cmd = (tbl, .invalidName) := by
+        rw [hadd]; simp only [h1, h2f, Bool.not_true, Bool.not_false, Bool.false_eq_true, if_false, if_true]
+      rw [hres]
+      refine ⟨⟨?_, ?_⟩, ?_, ?_⟩
+      · intro _; exact Or.inr h2'
+      · intro _; rfl
+      · intro h; cases h
+      · intro h; cases h
+  · have h1f : validCmdName name = false := (Bool.not_eq_true _).mp h1
+    have hres : cmdAdd tbl cmd = (tbl, .invalidName) := by
+      rw [hadd]; simp only [h1f, Bool.not_false, if_true]
+    rw [hres]
+    refine ⟨⟨?_, ?_⟩, ?_, ?_⟩
+    · intro _; exact Or.inl h1f
+    · intro _; rfl
+    · intro h; cases h
+    · intro h; cases h
 
 end Girc.Proofs.Pure
